@@ -32,13 +32,13 @@ CLAIMED = {
          "6/C06"),
  "C12": ("exploration",
          "deterministic simulation in a -race build: seam-gated pipeline with free-running internals, plus N ungated concurrent callers; oracle = Go race detector + solo-result equality",
-         "The same simulator built with the race detector. Part 1: multi-chunk inputs with many syntax errors spread over many small reads (and valid / early-failing inputs) through the real ParseFile goroutines; only the seams are gated, so lexer and parser run free inside each quiescence window and the detector sees the library's true happens-before relation (a scheduler that serialised everything would hide every race). Part 2: 2-4 callers released from one barrier, never gated against each other, each running a seeded list of Parse/Interpret/ParseFile/Execute and Dump of one shared Prog (with a lock-free per-goroutine output writer)/LoadProg/Unmarshal/Bind of a shared binding; each result must equal the same call made alone; the shared Prog is also executed with OptTrace/OptStats. The first use of the library in every worker process is concurrent (cold start), so lazily initialised package state is raced on if it can be. A report counts iff it has a frame in package bcl.",
+         "The same simulator built with the race detector. Part 1: multi-chunk inputs with many syntax errors spread over many small reads (and valid / early-failing inputs) through the real ParseFile goroutines; only the seams are gated, so lexer and parser run free inside each quiescence window and the detector sees the library's true happens-before relation (a scheduler that serialised everything would hide every race). Part 2: 2-4 callers released from one barrier, never gated against each other, each running a seeded list of Parse/Interpret/ParseFile/Execute and Dump of one shared Prog (with a lock-free per-goroutine output writer)/LoadProg/Unmarshal/Bind of a shared binding; each result must equal the same call made alone; the shared Prog is also executed with OptTrace/OptStats. Callers own their input buffers and overwrite them when a call is back; their inputs include abandoned parses (lexical failures inside nested blocks, a >64 KiB input failing in line 2) next to inputs sensitive to a clean start; two same-named local struct types are bound by different callers against an expectation that follows from type and source alone; concurrent loads include interrupted files and non-dumps through slow yielding readers; Close may fail. The first use of the library in every worker process is concurrent (cold start), so lazily initialised package state is raced on if it can be. A report counts iff it has a frame in package bcl.",
          "The race detector has no false positives; it can miss a race whose two accesses are never both executed in one run. Replay reproduces the workload exactly and the report with high probability.",
          "6/C12"),
 
  "C16": ("exploration",
          "deterministic simulation: one input re-run under different seeded gate schedules, call histories, repetitions, and in fresh worker processes at GOMAXPROCS 1/4/16 with digest comparison",
-         "The dimensions that must not matter are varied while the input is held fixed: gate schedule of the file pipeline (4 seeded schedules per input), GOMAXPROCS 1/4/16 and fresh processes (new hash seed each; the parent compares per-run outcome digests across the three passes), earlier calls in the same process (history), in-process repetition (32 quick / 256 thorough for inputs that end in Bind), and Execute twice on one Prog with Dump before/between/after. Workload includes Unmarshal targets built to expose order dependence (keys colliding on one field, twin inner blocks, several faulty fields, a tag and a name that both match). Map iteration order has no seam: it is sampled by repetition and fresh processes, not scheduled - stated in the evidence.",
+         "The dimensions that must not matter are varied while the input is held fixed: gate schedule of the file pipeline (4 seeded schedules per input), GOMAXPROCS 1/4/16 and fresh processes (new hash seed each; the parent compares per-run outcome digests across the three passes), earlier calls in the same process (history), in-process repetition (32 quick / 256 thorough for inputs that end in Bind), and Execute twice on one Prog with Dump before/between/after; one long-lived set of Option values and writers serving a sequence of calls, some of which fail half-way (warning then runtime error, Dump onto a disk that fills up, Load of a cut file), each call compared with the same call alone. Workload includes targets Bind refuses that hold pointers, and Unmarshal targets built to expose order dependence (keys colliding on one field, twin inner blocks, several faulty fields, a tag and a name that both match). Map iteration order has no seam: it is sampled by repetition and fresh processes, not scheduled - stated in the evidence.",
          "A map-order dependence with a rare minority order can be missed by 32 repetitions (measured minority 1/8 -> miss probability about 1.4 percent per input; many inputs per run).",
          "6/C16"),
  "C19": ("exploration",
@@ -59,12 +59,12 @@ CLAIMED = {
          "6/C08"),
  "C09": ("exploration",
          "deterministic simulation: seeded read partitions of the stored dump through a simulated reader (incl. 1 byte/read, zero reads, data+EOF, boundary-targeted cuts)",
-         "Self-consistency on one build over programs whose constants, names and offsets straddle the varint size classes and the 4096-byte buffers: Dump succeeds; LoadProg of the bytes under any partition succeeds; dump(load(dump)) is identical; OptDisasm listings are identical; executing both programs gives identical output, warnings, blocks, binding and runtime error (position included). Every single cut is enumerated for dumps up to 512 bytes.",
+         "Self-consistency on one build over programs whose constants, names and offsets straddle the varint size classes and the 4096-byte buffers: Dump succeeds; LoadProg of the bytes under any partition succeeds; dump(load(dump)) is identical; OptDisasm listings are identical; executing both programs gives identical output, warnings, blocks, binding and runtime error (position included). Every single cut is enumerated for dumps up to 512 bytes. Every other load goes through a reader that also has Stat, Len or Size (a regular file with the true, a smaller, a larger or zero size, a pipe, a failing Stat, a queue whose Len is what has arrived): whatever those say, a complete dump must load. Empty, blank-only and comment-only sources and integer constants on the edges of the varint classes are part of the workload.",
          "Round trip on one build cannot see symmetric format changes (C14 does).",
          "6/C09"),
  "C13": ("fault_enumeration",
          "crash-point enumeration: torn write at every byte of the dump on a simulated disk, surviving prefix re-loaded under three deliveries; full magic and version sweeps",
-         "For every program of a seeded set, EVERY cut point 0..len-1 of its dump is enumerated (the real Dump writes to a simulated disk that fails at byte k and keeps exactly k bytes), and the prefix is given to the real LoadProg all at once, one byte per read, and under a seeded partition with zero-byte reads and data+EOF; all 65535 wrong magics and all 65534 unsupported (major, minor) pairs are enumerated on valid bodies. Oracle: non-nil error, no panic; one delivery per cut passes OptDisasm; sources with more than 4096 (thorough: 65536) lines give sections larger than any preallocation cap; a CPU loop inside one LoadProg call is caught by the parent's supervisor (journal heartbeat). Exhaustive per program, sampled over programs.",
+         "For every program of a seeded set, EVERY cut point 0..len-1 of its dump is enumerated (the real Dump writes to a simulated disk that fails at byte k and keeps exactly k bytes), and the prefix is given to the real LoadProg all at once, one byte per read, and under a seeded partition with zero-byte reads and data+EOF; all 65535 wrong magics and all 65534 unsupported (major, minor) pairs are enumerated on valid bodies. Oracle: non-nil error, no panic; one delivery per cut passes OptDisasm; further load variants per cut: into a used Prog, twice into one Prog, readers ending with an error of their own, a caller-owned bufio.Reader, nil writers, every observer option switched on, readers whose Stat/Size/Len describe the file as it was before the write was interrupted; sources with more than 4096 (thorough: 65536) lines give sections larger than any preallocation cap; a CPU loop inside one LoadProg call is caught by the parent's supervisor (journal heartbeat). Exhaustive per program, sampled over programs.",
          "Programs are sampled; dumps up to about 12 KiB.",
          "6/C13"),
  "C14": ("other",
@@ -75,7 +75,7 @@ CLAIMED = {
 
  "C11": ("exploration",
          "deterministic simulation: seeded seam scheduler over a testing/synctest bubble with scripted reader faults",
-         "Seeded search over (input class x reader script with zero reads/EOF-with-data/errors/endless input x gate set x schedule bias x API variant x options); the real ParseFile/InterpretFile/UnmarshalFile goroutines run unmodified inside a synctest bubble whose root releases exactly one pending seam call per step. Termination is decided by quiescence (not a timeout), Close-exactly-once and read-after-close by the simulated file's counters, leaks by the bubble's own end-of-bubble check, error preference by identity of the injected error, bounded reading after a lexical failure by counting reads after the failing byte was delivered. Sampling, not proof.",
+         "Seeded search over (input class x reader script with zero reads/EOF-with-data/errors/endless input x gate set x schedule bias x API variant x options); the real ParseFile/InterpretFile/UnmarshalFile goroutines run unmodified inside a synctest bubble whose root releases exactly one pending seam call per step. Termination is decided by quiescence (not a timeout), Close-exactly-once and read-after-close by the simulated file's counters, leaks by the bubble's own end-of-bubble check, error preference by identity of the injected error, bounded reading after a lexical failure by counting reads after the failing byte was delivered. Input classes include 600-2100 nested constructs. A history check outside the bubble (first thing in every worker process and every 16th run) makes one to three calls that end badly in seven ways and then requires a valid multi-read input to be parsed, closed once and returned (20 s hang bound). Sampling, not proof.",
          "Trusts: Go 1.26.8 testing/synctest quiescence detection; confluence of bcl's goroutine network between seam events (re-checked by ./check selftest); the scheduler decides the order of seam calls, not of individual channel operations inside bcl.",
          "6/C11"),
 }
